@@ -51,6 +51,15 @@ def run(run):
         tpl = WRAPPERS[w]
         body = tpl % ((BODIES[b],) * tpl.count("%s"))
         cases.append({"body": body, "timeout": 1, "followups": FOLLOW[:2] if quick else FOLLOW, "_timeout": 1 + 12, "b": b, "w": w})
+    # histories: an invocation that fails in some way, optionally a pause longer than the limit, then benign invocations
+    firsts = {"no-such-function": "{{#invoke:echo|nofn}}", "no-such-module": "{{#invoke:nomod|main}}", "module-load-fails": "{{#invoke:syn|main}}",
+              "runtime-error": "{{#invoke:hang|main}}", "timeout": "{{#invoke:hang|main}}"}
+    hbody = {"runtime-error": "error('boom')", "timeout": "while true do end"}
+    benign = ["{{#invoke:echo|main|a|b=c}}"] * 18 + ["{{#invoke:work|main}}", "{{#invoke:echo|main|z}}", "{{#invoke:work|main}}"]
+    for name, first in firsts.items():
+        for wait in ((0, 2.6) if not quick else (2.6,)):
+            cases.append({"body": hbody.get(name, "return 'unused'"), "first": first, "wait": wait, "timeout": 1, "followups": benign,
+                          "_timeout": 14, "b": "history:" + name, "w": "history"})
     # one process per case, killed from outside: a Lua busy loop never returns to the interpreter, so no in-process alarm can fire
     res = []
     for i in range(0, len(cases), 12):
@@ -79,6 +88,15 @@ def run(run):
             continue
         if r.get("outcome") != "ok":
             run.property_failure("c07:raised:%s:%s" % (key, r.get("exc", "")), "expand raised: %r" % (r,), {k: c[k] for k in ("body", "timeout", "followups", "w", "b")})
+            continue
+        if c["w"] == "history":
+            want = ["<<n1=a;sb=c>>"] * 18 + ["work1200003", "<<n1=z>>", "work1200003"]
+            bad = [(i, f) for i, (f, g) in enumerate(zip(r["follow"], want)) if f != g]
+            if bad or len(r["follow"]) != len(want):
+                run.property_failure("c07:context-unusable-after:%s" % c["b"],
+                                     "after %s (pause %.1f s) benign invocations went wrong: %r" % (c["b"], c.get("wait", 0), bad[:3]), c)
+            if r["stack"] != ["Tt"] or r["env"] != 0:
+                run.property_failure("c07:state-left:%s" % c["b"], "expand_stack %r, lua_env_stack %d" % (r["stack"], r["env"]), c)
             continue
         if c["b"] == "finite":
             if "done500500" not in r["out"] and "no-coroutine" not in r["out"] and "after" not in r["out"]:
